@@ -153,6 +153,13 @@ fn exec_raw(st: &mut State, name: &str, t: &[&str]) -> String {
             st.objs.insert(name.to_string(), Obj::Raw(v));
             return s;
         },
+        // huge <len> <fill> : a vector beyond 2^32 bits; only `len count_ones` is reported (no word dump)
+        "huge" => {
+            let v = RawVector::with_len(parse_usize(t[1]), t[2] == "1");
+            let s = format!("{} {}", v.len(), v.count_ones());
+            st.objs.insert(name.to_string(), Obj::Raw(v));
+            return s;
+        },
         "from_words" => {
             let v = raw_from_words(parse_usize(t[1]), &t[2..]);
             let s = raw_state(&v);
@@ -183,6 +190,11 @@ fn exec_raw(st: &mut State, name: &str, t: &[&str]) -> String {
         "int" => unsafe { v.int(parse_usize(t[1]), parse_usize(t[2])).to_string() },
         "word" => v.word(parse_usize(t[1])).to_string(),
         "resize" => { v.resize(parse_usize(t[1]), t[2] == "1"); raw_state(v) },
+        // operations on huge vectors report `len count_ones` only
+        "hresize" => { v.resize(parse_usize(t[1]), t[2] == "1"); format!("{} {}", v.len(), v.count_ones()) },
+        "hset_bit" => { v.set_bit(parse_usize(t[1]), t[2] == "1"); format!("{} {}", v.len(), v.count_ones()) },
+        "hpush_bit" => { v.push_bit(t[1] == "1"); format!("{} {}", v.len(), v.count_ones()) },
+        "hcount" => format!("{} {}", v.len(), v.count_ones()),
         "clear" => { v.clear(); raw_state(v) },
         "reserve" => { v.reserve(parse_usize(t[1])); raw_state(v) },
         "state" => raw_state(v),
